@@ -58,11 +58,31 @@ CHECKS["C16"] = dict(engine="policy", category="proof", design_ref="DESIGN.md §
          "inference inside the constructors and IHR identity are idealised.",
     technique="Coq proof (algebra homomorphism, induction on policies) + correspondence")
 
+CHECKS["C01"] = dict(engine="codec", category="proof", design_ref="DESIGN.md §5 C01/C02, §11.3",
+    text="Coq model of encode_node/decode_node/encode_program/decode_expression over Bits/Natural.v and the real jet code tables "
+         "(C14): syntax round trip for every index-well-formed node list, prefix-freeness, canonical programs are written as "
+         "themselves and read back, witness stream round trip and uniqueness (Ty/Ty.v), encoder output accepted by the decoder "
+         "proved exhaustively for small tables (general statement kept visible, unproved). Equality of types/IHR/AMR after "
+         "re-inference is tested on the implementation only (node-by-node comparison, re-encode, libsimplicity as third decoder).",
+    note="Trusted: Coq kernel, hand-written model, python bit assembler as independent reference, harness. Open finding F-C01 "
+         "(identity-hash sharing merges IHR-equal nodes that differ below) is excused only under a checked structural predicate.",
+    technique="Coq proof of the codec core + correspondence + direct round-trip test on generated programs")
+CHECKS["C02"] = dict(engine="codec", category="proof", design_ref="DESIGN.md §5 C01/C02, §11.3",
+    text="For the Coq decoder model: whatever it accepts is the encoding of the node list it returns followed by the unread bits "
+         "(canonicity), it never panics or runs out of fuel, an accepted table is in canonical post-order, re-encoding an accepted "
+         "program reproduces the bits/bytes for any injective assignment of sharing ids, one rejection theorem per canonicity rule "
+         "with accepting counterparts. Typing inside decode, stack depth and allocation are not modelled: every input is run "
+         "through all three decoders in debug and release builds in isolated processes with time and memory limits.",
+    note="Trusted: as C01. Open finding F-C02b (recursive unifier overflows the native stack for a ~37 KB program) is printed as "
+         "KNOWN-FINDING for that generator family only.",
+    technique="Coq proof of decoder canonicity/totality + correspondence + mutation-based search on byte strings")
+
 NOT_YET = {}
 
 ENGINES = [
     dict(name="bits", path="coq/Bits", serves_properties=["C13"], kind_free_text="Coq model + proofs of bit reader/writer/natural code"),
     dict(name="budget", path="coq/Budget", serves_properties=["C19"], kind_free_text="Coq model + proofs of budget/padding arithmetic over translated constants"),
+    dict(name="codec", path="coq/Codec", serves_properties=["C01", "C02"], kind_free_text="Coq model of the program/witness bit codec + proofs"),
     dict(name="value", path="coq/Value", serves_properties=["C10", "C11"], kind_free_text="byte-level Coq model of Value + refinement proofs"),
     dict(name="policy", path="coq/Policy", serves_properties=["C16"], kind_free_text="Coq model of policy compilation/satisfaction/sorting"),
     dict(name="jets", path="coq/Jets", serves_properties=["C14"], kind_free_text="translated jet/FFI tables + Coq proofs by computation"),
